@@ -40,7 +40,7 @@ ASSUMPTIONS = [
     "operators or hardware features outside the model make a case inconclusive (counted in the evidence), never a violation",
 ]
 
-APPROX_CODES = {"EXP", "LOG", "SQRT", "RSQRT", "GELU", "LOGISTIC", "TANH", "HARD_SWISH", "LEAKY_RELU", "SOFTMAX", "MEAN", "RESIZE_BILINEAR", "TRANSPOSE_CONV", "ABS", "PRELU"}
+APPROX_CODES = {"SQUARED_DIFFERENCE", "EXP", "LOG", "SQRT", "RSQRT", "GELU", "LOGISTIC", "TANH", "HARD_SWISH", "LEAKY_RELU", "SOFTMAX", "MEAN", "RESIZE_BILINEAR", "TRANSPOSE_CONV", "ABS", "PRELU"}
 # operators that select, move or clamp values (1-Lipschitz in every operand): a one-step deviation of an operand stays a one-step deviation of the result
 SELECTING_CODES = {"RESHAPE", "SQUEEZE", "EXPAND_DIMS", "SLICE", "STRIDED_SLICE", "SPLIT", "SPLIT_V", "CONCATENATION", "PAD", "TRANSPOSE", "PACK", "UNPACK", "TILE", "GATHER", "MAX_POOL_2D",
                    "RELU", "RELU6", "RELU_N1_TO_1", "MAXIMUM", "MINIMUM", "RESIZE_NEAREST_NEIGHBOR"}
